@@ -133,6 +133,10 @@ def run_case(case):
         if out.ok:
             p2 = p1.project(list(case['proj2']))
             check_proj('project2', p2, list(case['proj2']), T, attrs)
+    if out.ok and len(proj) >= 2:
+        # the same Dataset object asked again for the same attribute set in another order
+        rev = proj[::-1]
+        check_proj('project_reversed_same_object', data.project(rev), rev, T, attrs)
     if out.ok:
         full = list(case['proj_full'])
         check_proj('project_full_perm', data.project(full), full, T, attrs)
@@ -211,3 +215,15 @@ def domain_laws(out, Domain, attrs, shape, case):
         return out.fail('mismatch:domain:eq', '__eq__ wrong for %s vs %s' % (D, D2))
     if len(attrs) >= 2 and (D == Domain(attrs[::-1], shape[::-1])) and attrs[::-1] != attrs:
         return out.fail('mismatch:domain:eq', 'a reordered domain compares equal')
+    # product law on large (valid) domains: sizes are exact integers, far beyond 2**63
+    rng = np.random.Generator(np.random.PCG64(case['seed'] + 99))
+    big_attrs = ['x%02d' % i for i in range(int(rng.integers(6, 14)))]
+    big_shape = [int(rng.choice([2, 7, 100, 256, 1000])) for _ in big_attrs]
+    B = Domain(big_attrs, big_shape)
+    exact = 1
+    for v in big_shape: exact *= v
+    half = len(big_attrs) // 2
+    eh = 1
+    for v in big_shape[:half]: eh *= v
+    if B.size() != exact or B.size(big_attrs[:half]) != eh or B.project(big_attrs[:half]).size() * B.marginalize(big_attrs[:half]).size() != exact:
+        return out.fail('mismatch:domain:size_large', 'size of a %d-attribute domain with shape %s is %r, exact product %r' % (len(big_attrs), big_shape, B.size(), exact))
